@@ -81,9 +81,12 @@ fn parity_router(hits: Arc<AtomicUsize>) -> repe::Router {
         .with_typed("/typed", |p: ParityP| Ok::<_, (repe::ErrorCode, String)>(ParityP { a: p.a + 1 }))
         .with_typed_blocking("/typedblk", |p: ParityP| Ok::<_, (repe::ErrorCode, String)>(ParityP { a: p.a + 2 }))
         .with_json("/fail", |_v: Value| -> Result<Value, (repe::ErrorCode, String)> { Err((repe::ErrorCode::ApplicationErrorBase, "nope".into())) })
+        // one path that alternates between success and failure on one connection (a multi-step history: whatever a server keeps
+        // between responses must not leak from a success into the error that follows it, or back)
+        .with_json("/flip", |v: Value| -> Result<Value, (repe::ErrorCode, String)> { if v["n"].as_u64().unwrap_or(0) % 2 == 1 { Err((repe::ErrorCode::ApplicationErrorBase, "odd".into())) } else { Ok(v) } })
 }
 const DEEP: &str = "/deep/a/b/c/d/e/f/g/h/i/j/k/l/m/n/o/p/q/r/s/t";
-const PARITY_REQS: [(u64, &str, bool); 19] = [
+const PARITY_REQS: [(u64, &str, bool); 23] = [
     (1, "/own", false), (2, "/echo", false), (3, "/missing", false), (4, "/own", false), (5, "/fail", false), (6, "/echo", true), (7, "/own", false),
     (8, "/rawq", false), (9, "/blk", false), (10, "/nowhere/missing/path", false),
     (11, "/v10/whoami", false), (12, "/v1/whoami", false), (13, DEEP, false), (14, "/deep/x", false),
@@ -91,6 +94,8 @@ const PARITY_REQS: [(u64, &str, bool); 19] = [
     (15, "/typed", false), (16, "/typedblk", false), (17, "/typed#json", false), (18, "/typedblk#json", false),
     // a bulk numeric route given a JSON body: rejected alike on every path
     (19, "/slice", false),
+    // success, failure, success, failure on the same path, back to back
+    (20, "/flip", false), (21, "/flip", false), (22, "/flip", false), (23, "/flip", false),
 ];
 fn parity_request(id: u64, path: &str, notify: bool) -> repe::Message {
     // "/rawq": a request whose query is not a JSON pointer (rejected with InvalidQuery, query echoed)
@@ -250,11 +255,16 @@ async fn server_query_parity() -> Result<String, String> {
     let blocking = tokio::task::spawn_blocking(move || parity_blocking(r)).await.unwrap()?;
     let ws = parity_ws(parity_router(hits[4].clone()), false).await?;
     let ws_unlimited = parity_ws(parity_router(hits[5].clone()), true).await?;
-    let expect_q: [&[u8]; 18] = [b"/chosen/by-handler", b"/echo", b"/missing", b"/chosen/by-handler", b"/fail", b"/chosen/by-handler", b"/rawq", b"/blk", b"/nowhere/missing/path", b"/v10/whoami", b"/v1/whoami", DEEP.as_bytes(), b"/deep/x", b"/typed", b"/typedblk", b"/typed", b"/typedblk", b"/slice"];
-    let expect_id = [1u64, 2, 3, 4, 5, 7, 8, 9, 10, 11, 12, 13, 14, 15, 16, 17, 18, 19];
+    let expect_q: [&[u8]; 22] = [b"/chosen/by-handler", b"/echo", b"/missing", b"/chosen/by-handler", b"/fail", b"/chosen/by-handler", b"/rawq", b"/blk", b"/nowhere/missing/path", b"/v10/whoami", b"/v1/whoami", DEEP.as_bytes(), b"/deep/x", b"/typed", b"/typedblk", b"/typed", b"/typedblk", b"/slice", b"/flip", b"/flip", b"/flip", b"/flip"];
+    let expect_id = [1u64, 2, 3, 4, 5, 7, 8, 9, 10, 11, 12, 13, 14, 15, 16, 17, 18, 19, 20, 21, 22, 23];
     for (name, got) in [("async", &plain), ("async+write_timeout", &with_w), ("async+read+write_timeout", &with_rw), ("blocking", &blocking), ("WebSocket", &ws), ("WebSocket, off-reader cap removed", &ws_unlimited)] {
-        if got.len() != 18 {
-            return Err(format!("{name}: {} responses to 18 requests and one notify", got.len()));
+        if got.len() != 22 {
+            return Err(format!("{name}: {} responses to 22 requests and one notify", got.len()));
+        }
+        for (i, ec) in [(18usize, 0u32), (19, repe::ErrorCode::ApplicationErrorBase as u32), (20, 0), (21, repe::ErrorCode::ApplicationErrorBase as u32)] {
+            if got[i].header.ec != ec {
+                return Err(format!("{name}: request {} to the alternating route was answered with ec {} (expected {ec})", expect_id[i], got[i].header.ec));
+            }
         }
         if got[17].header.ec != repe::ErrorCode::InvalidBody as u32 {
             return Err(format!("{name}: a typed-slice route given a JSON body answered ec {}; an unacceptable body format is InvalidBody", got[17].header.ec));
@@ -270,7 +280,7 @@ async fn server_query_parity() -> Result<String, String> {
         if got[11].header.ec != 0 || got[11].json_body::<Value>().ok() != Some(json!({"segments": 20, "last": "t"})) {
             return Err(format!("{name}: a 20-segment path below a struct mount was answered with ec {} body {:?}", got[11].header.ec, String::from_utf8_lossy(&got[11].body)));
         }
-        for i in 0..18 {
+        for i in 0..22 {
             if got[i].header.id != expect_id[i] {
                 return Err(format!("{name}: response {i} carries id {} (expected {})", got[i].header.id, expect_id[i]));
             }
@@ -290,7 +300,7 @@ async fn server_query_parity() -> Result<String, String> {
     if ws[6].header.ec != repe::ErrorCode::InvalidQuery as u32 {
         return Err(format!("a query that is not a JSON pointer was answered with ec {}", ws[6].header.ec));
     }
-    for i in 0..18 {
+    for i in 0..22 {
         for (name, got) in [("async", &plain), ("async+write_timeout", &with_w), ("async+read+write_timeout", &with_rw), ("WebSocket", &ws), ("WebSocket, off-reader cap removed", &ws_unlimited)] {
             if fields(&got[i]) != fields(&blocking[i]) {
                 return Err(format!("response {i} differs between {name} and blocking TCP: {:?} vs {:?}", fields(&got[i]), fields(&blocking[i])));
@@ -320,7 +330,7 @@ async fn server_query_parity() -> Result<String, String> {
             return Err(format!("the /own handler ran {} times for 3 requests", h.load(Ordering::SeqCst)));
         }
     }
-    Ok("18 responses identical on 6 server configurations (blocking TCP, async TCP x3, WebSocket inline and off-reader with the default and with no off-reader cap)".into())
+    Ok("22 responses identical on 6 server configurations (blocking TCP, async TCP x3, WebSocket inline and off-reader with the default and with no off-reader cap)".into())
 }
 
 // ---------------------------------------------------------------------------------------------
